@@ -227,7 +227,7 @@ def gen_ops(rng, root, env, n, profile="mixed", bad=0.3):
     for _ in range(n):
         kind = weighted(rng, [(8, "set"), (2, "set_sub" if subs else "set"), (1.2, "ctor"), (2, "load_tree"), (1.5, "loads"),
                               (1, "cmdline"), (2, "reset"), (5 if lists else 0, "listop"), (4 if dicts else 0, "dictop"),
-                              (0.7, "set_dynamic"), (1.5 if len(leaves) > 1 else 0, "copy")])
+                              (0.7, "set_dynamic"), (1.5 if len(leaves) > 1 else 0, "copy"), (1.2, "serialize")])
         want = "invalid" if rng.random() < bad else "valid"
         if kind == "set" and leaves:
             p, nd = rng.choice(leaves)
@@ -313,6 +313,10 @@ def gen_ops(rng, root, env, n, profile="mixed", bad=0.3):
                   "pairs": [kv("valid" if rng.random() < 0.8 else want) for _ in range(rng.choice([0, 1, 2]))],
                   "kind": rng.choice(["dict", "pairs", "iter"])}
             ops.append(op)
+        elif kind == "serialize":
+            ops.append({"op": "serialize", "how": rng.choice(["to_tree", "to_tree_virtual", "dumps", "save", "stub", "asdict",
+                                                               "parser"]),
+                        "fmt": rng.choice(FORMATS), "mask": rng.choice([None, None, "*", "xx"])})
         elif kind == "copy":
             # assign to one field the live value (possibly a typed proxy) read from another field
             (src, snd), (dst, dnd) = rng.sample(leaves, 2)
@@ -466,6 +470,39 @@ class Driver:
             pred.unpredicted = label is None
         return {"kind": kind, "path": path, "raised": exc, "label": label, "norm": norm, "pred": pred, "before": before,
                 "listed": True, "node": nd, "value": value}
+
+    def _op_serialize(self, op):
+        """Read-only renderings of the configuration: whatever they return or raise, nothing may change."""
+        cc, cfg = self.cc, self.cfg
+        before = self.snapshot()
+        how = op["how"]
+        if how in ("to_tree", "to_tree_virtual", "dumps", "save") and _nontext_secret(self.root, before.values):
+            return None  # an (untyped) SecureField holding a number would be "encrypted" as bytearray(number): out of scope
+
+        def fn():
+            if how == "to_tree":
+                cfg.to_tree(sensitive_mask=op.get("mask"))
+            elif how == "to_tree_virtual":
+                cfg.to_tree(virtual=True)
+            elif how == "dumps":
+                cfg.dumps(op["fmt"], sensitive_mask=op.get("mask"))
+            elif how == "save":
+                cfg.save(os.path.join(self.ctx.dir, "ser.out"), op["fmt"])
+            elif how == "stub":
+                import contextlib
+                import io
+
+                with contextlib.redirect_stdout(io.StringIO()):
+                    cc.generate_stub(cfg, "Ser")
+            elif how == "asdict":
+                cc.asdict(cfg)
+            else:
+                cc.generate_argparse_parser(cfg)
+
+        exc = self._run(fn)
+        pred = Prediction(clone(before.values), dict(before.flags))
+        return {"kind": "serialize", "path": "", "raised": None, "label": True, "pred": pred, "before": before, "listed": False,
+                "serialize_error": exc}
 
     def _op_copy(self, op):
         cc, cfg = self.cc, self.cfg
@@ -848,6 +885,37 @@ class Driver:
         pset(pred.values, path, Unknown)
         return {"kind": "dictop:" + name, "path": path, "raised": exc, "label": label, "pred": pred, "before": before,
                 "listed": single, "inplace": True}
+
+
+def _nontext_secret(node, values):
+    for ch in model.stored_children(node):
+        v = values.get(ch["key"]) if isinstance(values, dict) else None
+        if ch["kind"] in ("schema", "ctype"):
+            if isinstance(v, dict) and _nontext_secret(ch, v):
+                return True
+            continue
+        if _secret_nontext(ch, v):
+            return True
+    return False
+
+
+def _secret_nontext(f, v):
+    if v is None:
+        return False
+    fam = f["family"]
+    if fam == "secure":
+        return not isinstance(v, str)
+    if fam == "list" and isinstance(v, (list, tuple)):
+        it = f.get("item")
+        if it is None:
+            return False
+        if it["kind"] != "field":
+            return any(isinstance(x, dict) and _nontext_secret(it, x) for x in v)
+        return any(_secret_nontext(it, x) for x in v)
+    if fam == "dict" and isinstance(v, dict):
+        vf = f.get("valf")
+        return vf is not None and any(_secret_nontext(vf, x) for x in v.values())
+    return False
 
 
 def _holds_config(cc, value, depth=0):
